@@ -817,19 +817,11 @@ fn run_scn_inner(s: &TScn, cov: &mut Cov, occupancy: bool) -> Result<RunInfo, Vi
         let mut host = RHost::new(s.host);
         let mut shell = ShellSide::default();
         let mut r = Reference::default();
-        // Timer ids come from a process-wide counter, so what a run sees depends on how many timers the
-        // process has started before - which a replay in a fresh process cannot know. Every run therefore
-        // begins by advancing the counter to the next id that is 1 modulo 256: search, minimisation and
-        // replay then see ids that agree modulo 256 (a seeded change that folded ids modulo 64 was found
-        // but did not replay before this).
-        {
-            let (_b, h) = crux_time::command::Time::<Effect, TEvent>::notify_after(Duration::from_millis(1));
-            let dbg = format!("{h:?}");
-            let cur: u64 = dbg.split("TimerId(").nth(1).and_then(|t| t.split(')').next()).and_then(|t| t.trim().parse().ok()).unwrap_or(0);
-            for _ in 0..(256 - (cur % 256)) % 256 {
-                let _ = crux_time::command::Time::<Effect, TEvent>::notify_after(Duration::from_millis(1));
-            }
-        }
+        // (Timer ids come from a process-wide counter and differ between the searching process and a replay.
+        // With the cleared-id set emptied above, a history depends only on the *differences* between its
+        // ids, which are the same everywhere. An earlier version also advanced the counter to a fixed
+        // residue through the command API; that kept the two APIs' ids apart and hid a seeded change that
+        // gives each API a counter of its own (C18c), so it was removed.)
         // sibling cores in the same process draw from the same id counter
         let mut sib_ids = vec![];
         for i in 0..s.sibling_timers {
